@@ -197,6 +197,30 @@ def phase2b():
                 print(i, len(todo), flush=True)
 
 
+def phase2c():
+    """re-run the mutants that were DETECTED (replay / corr) against the case files currently in CASES (generate them with
+    another MUT_SEED first): which detections depend on the driver seed?"""
+    global OPEN
+    OPEN = open_classes()
+    os.makedirs(TMP, exist_ok=True)
+    p2 = load_p2()
+    todo = [{k: v for k, v in r.items() if k not in ("tie", "props")} for r in p2 if verdict(r) in ("replay", "corr")]
+    out = os.path.join(RES, "phase2c_seed%s.jsonl" % os.environ.get("MUT_SEED", "x"))
+    lost = []
+    with mp.Pool(int(os.environ.get("MUT_WORKERS", "10"))) as pool, open(out, "w") as f:
+        for i, r in enumerate(pool.imap_unordered(phase2_one, todo)):
+            f.write(json.dumps(r) + "\n"); f.flush()
+            if "gone" in r:
+                continue
+            if verdict(r) == "SURVIVED":
+                lost.append(r)
+            if i % 100 == 0:
+                print(i, len(todo), len(lost), flush=True)
+    print("detected with seed 1:", len(todo), "not detected with this seed:", len(lost))
+    for r in sorted(lost, key=lambda r: (r["file"], r["line"])):
+        print("LOST %s:%d %s [%s] %r -> %r" % (r["file"], r["line"], r["func"], r["op"], r["old"][:50], r["new"][:30]))
+
+
 def load_p2():
     p2 = [json.loads(l) for l in open(os.path.join(RES, "phase2.jsonl"))]
     pb = os.path.join(RES, "phase2b.jsonl")
@@ -413,4 +437,5 @@ if __name__ == "__main__":
     elif c == "refactor": refactor(sys.argv[2:])
     elif c == "seeds": seeds()
     elif c == "tiebuild": tiebuild(sys.argv[2:])
+    elif c == "phase2c": phase2c()
     elif c == "report": report()
